@@ -212,17 +212,28 @@ def run(tier, seed):
     numeric = [
         ('foreign-tax-over-1116-limit', {'1099-int:0.box_6': '950.00', 'number_1099-int': '1'}, {'foreign': True}),
         ('more-payers-than-schedule-b-rows', {'number_1099-int': '20', 'box_1': '400.00'}, {}),
-        ('hsa-contribution-over-limit', {'schedule_1_income_adjustments': 'yes', 'hsa_contribution_you': 'yes',
-                                         '8889:you.2': '9999.00', 'contributions': '9999.00'}, {}),
     ]
+    hsa = {'schedule_1_income_adjustments': 'yes', 'hsa_contribution_you': 'yes', 'hsa_contribution_spouse': 'no', 'age_under_55': 'yes',
+           'hsa_full_year': 'yes', 'hdhp_plan_family': 'no', 'part_2_needed': 'no', 'part_3_needed': 'no', 'qualified_distribution': 'no',
+           'archer_msa': '0.00', 'principal_abode_us': 'yes'}
+    numeric += [('hsa-contribution-over-limit', dict(hsa, hsa_contributions='9999.00', employer_contribution='0.00'), {'others': False}),
+                ('hsa-contribution-over-limit-with-employer-money', dict(hsa, hsa_contributions='3000.00', employer_contribution='1500.00'), {'others': False})]
+    special_hsa = {y_: (sd_, pf_) for (y_, fm_, sd_, pf_) in scenarios.special_scenarios() if sd_ == 9001}
     for year in summ:
         for label, ov, pmod in numeric:
             prof = {'status': 'Single', 'amounts': 'cents', 'wages': 60000, 'n_w2': 1, 'n_dep': 0, 'others': True}
             prof.update(pmod)
-            r = scenarios.run_scenario(H, year, ['1040'], 4242, prof, overrides=ov)
+            sseed_ = 4242
+            if label.startswith('hsa') and year in special_hsa:
+                # the fixed HSA scenario (which solves), as a single filer, with the contribution pushed over the limit
+                sseed_, base_prof = special_hsa[year]
+                prof = dict(base_prof, status='Single')
+                ov = dict(base_prof.get('overrides', {}), **ov)
+                prof.pop('overrides', None)
+            r = scenarios.run_scenario(H, year, ['1040'], sseed_, prof, overrides=ov)
             ck.count((year, label), nontrivial=True)
             consulted = any(k.split('.')[-1] in ov or k in ov for (k, a, nb) in r['policy'].asked)
-            if r['exc'] is None and r['ok'] and consulted and label != 'hsa-contribution-over-limit':
+            if r['exc'] is None and r['ok'] and consulted:
                 ck.violation('C09:%d:%s' % (year, label), 'ty%d: %s still gives a solved return' % (year, label),
                              {'kind': 'failing-input', 'year': year, 'overrides': ov, 'profile': prof}, found=True)
     ck.cov['gates_flipped_on_real_runs'] = {str(y): len(v) for y, v in exercised.items()}
